@@ -483,6 +483,8 @@ class Unit:
             ed.add(m.start(), e2, '', 'D2')
             self.rule('D2', path, line_of(text, m.start()), 'removed attribute ' + re.sub(r'\s+', ' ', text[m.start():e]))
         for m in re.finditer(r'\buse\s+(' + '|'.join(EXTERN_CRATES) + r')::', text):
+            if re.search(r'(?m)^\s*(pub(\([a-z]+\))?\s+)?mod\s+%s\s*;' % m.group(1), text):
+                continue   # a local module of the same name shadows the extern crate in this file
             if in_kept(m.start()) and code_at(m.start()):
                 ed.add(m.start(1), m.end(1), 'crate::' + m.group(1), 'D3')
                 self.rule('D3', path, line_of(text, m.start()), '`use %s::` -> `use crate::%s::`' % (m.group(1), m.group(1)))
